@@ -3,10 +3,13 @@ package mc
 import (
 	"fmt"
 	"math"
+	"os"
 	"reflect"
 	"sort"
 	"strconv"
 	"strings"
+
+	"verif/vrt"
 )
 
 // Fingerprint is a canonical rendering of every data field reachable from v: numbers (floats by
@@ -174,6 +177,10 @@ func (w *fpWalker) walk(v reflect.Value, depth int) {
 func Safe(f func()) (msg string) {
 	defer func() {
 		if r := recover(); r != nil {
+			if ce, ok := r.(vrt.CapacityError); ok {
+				fmt.Fprintf(os.Stderr, "INTERNAL: %s (a limit of the model, not a violation)\n", string(ce))
+				os.Exit(3)
+			}
 			msg = fmt.Sprint(r)
 		}
 	}()
